@@ -366,13 +366,15 @@ def check_worker(cases):
 
 SEEN = {}
 SKIPPED = [0]
+JVM = {"JAVA_TOOL_OPTIONS": "-XX:ParallelGCThreads=2"}
+JVM_SMALL = {"JAVA_TOOL_OPTIONS": "-XX:ParallelGCThreads=2 -XX:TieredStopAtLevel=1"}
 KNOWN = []
 
 
 def judge_group(ctx, module, cases, fields, name, keyfn, parallel=1, drift_clauses=()):
     if not cases:
         return
-    v = ctx.judge(module, [strip(c, fields) for c in cases], name=name, parallel=parallel)
+    v = ctx.judge(module, [strip(c, fields) for c in cases], name=name, parallel=parallel, env=JVM)
     for i, c in enumerate(cases):
         ctx.evaluations += 1
         cl = v.get(i, "missing")
@@ -420,33 +422,33 @@ def run(ctx):
     inv_m = ["ManSymmetric", "ManIdentity", "ManNonNeg", "ManTriangle", "EucSymmetric", "EucIdentity",
              "EucTriangle", "Comparable"]
     ctx.model_check("Metrics", dict(spec="Spec", invariants=inv_m, constants=dict(N=ctx.pick(5, 6), MUT="none")),
-                    "lattice")
+                    "lattice", workers=ctx.pick(4, 16), env=JVM)
     for mut, inv in (("abs_of_sum", "ManIdentity"), ("asym", "ManSymmetric"), ("nosqrt", "EucTriangle"),
                      ("drop_y", "EucIdentity")):
         ctx.model_check("Metrics", dict(spec="Spec", invariants=[inv], constants=dict(N=4, MUT=mut)),
-                        "neg_" + mut, expect="violation")
+                        "neg_" + mut, expect="violation", workers=2, env=JVM_SMALL)
     inv_k = ["CircleIsEllipseMask", "OddShape", "Flips", "CentreAndAxesSet", "Binary", "AnnulusIsDifference",
              "AnnulusNonNegative", "InnerInsideOuter", "Monotone"]
     cells = CELLS_T if thorough else CELLS_Q
     ctx.model_check("Kernels", dict(spec="Spec", invariants=inv_k, constants=dict(
         CELLS=core.Raw("{%s}" % ", ".join("<<%d, %d>>" % tuple(c) for c in cells)),
-        RQMAX=ctx.pick(16, 24), MUT="none")), "all_radii")
+        RQMAX=ctx.pick(16, 24), MUT="none")), "all_radii", workers=ctx.pick(8, 16), env=JVM)
     for mut, inv in (("lt", "CircleIsEllipseMask"), ("swap_axes", "CircleIsEllipseMask"),
                      ("round_up", "CircleIsEllipseMask"), ("pad_before_only", "AnnulusIsDifference"),
                      ("inner_uncentred", "AnnulusNonNegative")):
         ctx.model_check("Kernels", dict(spec="Spec", invariants=[inv], constants=dict(
             CELLS=core.Raw("{<<1, 1>>, <<2, 1>>, <<1, 2>>}"), RQMAX=10, MUT=mut)), "neg_" + mut,
-            expect="violation")
+            expect="violation", workers=2, env=JVM_SMALL)
     inv_d = ["VerdictAgrees", "OddAgrees", "ValueAgrees", "NonPositiveRejected", "RejectIsFinal"]
     alpha = core.Raw("{%s}" % ", ".join('"%s"' % a for a in ALPHA))
     ctx.model_check("DistanceParse", dict(spec="Spec", invariants=inv_d, constants=dict(
-        ALPHA=alpha, MAXLEN=ctx.pick(5, 6), MUT="none")), "all_strings")
+        ALPHA=alpha, MAXLEN=ctx.pick(5, 6), MUT="none")), "all_strings", workers=ctx.pick(8, 16), env=JVM)
     for mut, inv in (("accept_zero", "NonPositiveRejected"), ("case_sensitive", "VerdictAgrees"),
                      ("trailing_dot", "VerdictAgrees"), ("digits_in_unit", "RejectIsFinal")):
         ctx.model_check("DistanceParse", dict(spec="Spec", invariants=[inv] if mut != "digits_in_unit"
                                               else ["VerdictAgrees"],
                                               constants=dict(ALPHA=alpha, MAXLEN=4, MUT=mut)),
-                        "neg_" + mut, expect="violation")
+                        "neg_" + mut, expect="violation", workers=2, env=JVM_SMALL)
     ctx.exhaustive = True
 
     # ---------------------------------------------------------------- R / T : one fan-out over the real code
